@@ -140,7 +140,9 @@ PROPS = {
         "runs": [{"profile": "c12", "n_quick": 6000, "n_thorough": 120000},
                  {"profile": "climulti", "kind": "cli", "n_quick": 40, "n_thorough": 400, "nontrivial": "any"},
                  {"profile": "c02", "n_quick": 3000, "n_thorough": 60000},
-                 {"profile": "cli17", "kind": "cli", "n_quick": 10, "n_thorough": 100, "nontrivial": "any"}],
+                 {"profile": "cli17", "kind": "cli", "n_quick": 10, "n_thorough": 100, "nontrivial": "any"},
+                 # the library's parallel runner: the sessions of every file, failing ones included, are closed
+                 {"profile": "c17lib", "n_quick": 300, "n_thorough": 10000, "nontrivial": "any"}],
         "observable": "MakeConnection invocations in order, session id per call (the mock answers every query with [session id, earlier calls on that session]), per-session order, multiset of sessions shut down",
         "explanation": "random scripts over connection names {default,a,A,b,c1} incl. repeated connection lines, interleaved with comments / system / guards / failing records, failing connection attempts",
     },
